@@ -26,11 +26,13 @@ func GlobalErrorToken(t token.Token, message string) {
 func report(line int, where, message string) {
 	fmt.Fprintf(os.Stderr, "[line %d] Error%s: %s\n", line, where, message)
 	HadError = true
+	VerifEmit("diag", "static", line, message)
 }
 
 func RuntimeError(token token.Token, message string) {
 	fmt.Fprintf(os.Stderr, "%s\n[line %d]\n", message, token.Line)
 	HadRuntimeError = true
+	VerifEmit("diag", "runtime", token.Line, message)
 }
 
 func ConvertBanglaDigitsToASCII(input string) string {
